@@ -1095,7 +1095,11 @@ func (z *Decimal) SetFloat(x *big.Float) *Decimal {
 	exp2 -= int64(fprec)
 	if exp2 != 0 {
 		// multiply / divide by 2**exp with increased precision
-		z.prec++
+		// (no room for a guard digit at MaxPrec: z.prec must not wrap to 0)
+		guard := z.prec < MaxPrec
+		if guard {
+			z.prec++
+		}
 		t := new(Decimal).SetPrec(uint(z.prec))
 		if exp2 < 0 {
 			if exp2 < MinExp {
@@ -1108,7 +1112,9 @@ func (z *Decimal) SetFloat(x *big.Float) *Decimal {
 		} else {
 			z = z.Mul(z, t.pow2(uint64(exp2)))
 		}
-		z.prec--
+		if guard {
+			z.prec--
+		}
 	}
 	z.round(0)
 	return z
@@ -1156,14 +1162,20 @@ func (z *Decimal) SetFloat64(x float64) *Decimal {
 	z.exp = int32(len(z.mant))*_DW - int32(dnorm(z.mant))
 	if exp2 != 0 {
 		// multiply / divide by 2**exp with increased precision
-		z.prec++
+		// (no room for a guard digit at MaxPrec: z.prec must not wrap to 0)
+		guard := z.prec < MaxPrec
+		if guard {
+			z.prec++
+		}
 		t := new(Decimal).SetPrec(uint(z.prec))
 		if exp2 < 0 {
 			z = z.Quo(z, t.pow2(uint64(-exp2)))
 		} else {
 			z = z.Mul(z, t.pow2(uint64(exp2)))
 		}
-		z.prec--
+		if guard {
+			z.prec--
+		}
 	}
 	z.round(0)
 	return z
